@@ -15,7 +15,9 @@ U_SRC_MATCH=['a','d/b','d/c','db']      # db: starts with the letters of the pre
 U_DST=['b','e/b','d/b','a']
 BASIC=[{'kind':k,'pattern':p} for k in ('CREATE','DELETE','MODIFY','ALLOW','DISALLOW') for p in ('a','*','d/*')]+\
       [{'kind':'ALLOW','pattern':'?'},{'kind':'ALLOW','pattern':'d/?'},{'kind':'DISALLOW','pattern':'['},{'kind':'ALLOW','pattern':'['},
-       {'kind':'REQUIRE','pattern':'a'},{'kind':'REQUIRE','pattern':'zz'},{'kind':'REQUIRE','pattern':'*'},{'kind':'DISALLOW','pattern':'d/[bc]'},{'kind':'MODIFY','pattern':'d/[!b]'}]
+       {'kind':'REQUIRE','pattern':'a'},{'kind':'REQUIRE','pattern':'zz'},{'kind':'REQUIRE','pattern':'*'},{'kind':'DISALLOW','pattern':'d/[bc]'},{'kind':'MODIFY','pattern':'d/[!b]'},
+       # patterns that COMBINE features (class / ? / inner star with a trailing star), and a malformed class before a star
+       {'kind':'ALLOW','pattern':'[ad]*'},{'kind':'DISALLOW','pattern':'d/[bc]*'},{'kind':'ALLOW','pattern':'?*'},{'kind':'DISALLOW','pattern':'d*b'},{'kind':'DISALLOW','pattern':'d[/*'}]
 def M(pattern,in_src=None,with_='Products',in_dst=None,from_='t'): return {'kind':'MATCH','pattern':pattern,'in_src':in_src,'with':with_,'in_dst':in_dst,'from':from_}
 MATCHES=[M('*'),M('a'),M('b',in_src='d'),M('*',in_src='d'),M('*',in_src='d/'),M('b',in_dst='e'),M('b',in_dst='e/'),M('*',in_src='d',in_dst='e'),
          M('*',with_='Materials'),M('b',in_src='d',with_='Materials',in_dst='e'),M('*',from_='zz'),M('[',in_src='d'),M('d/*'),M('?',in_src='d',in_dst='d')]
